@@ -116,7 +116,15 @@ func (rt *Transfer) receiveData(f *File, localFile *os.File) error {
 		local := filepath.Join(rt.Dest, f.Name)
 		rt.Logger.Printf("creating %s", local)
 	}
-	out, err := newPendingFile(rt.DestRoot, f.Name)
+	// The pending file gets its own handle of the destination directory:
+	// this goroutine can outlive Do (see waitFor), whose callers close
+	// DestRoot, and Cleanup still has to remove the temporary file then.
+	root, err := rt.DestRoot.OpenRoot(".")
+	if err != nil {
+		return err
+	}
+	defer root.Close()
+	out, err := newPendingFile(root, f.Name)
 	if err != nil {
 		return err
 	}
